@@ -73,6 +73,14 @@ def base_ns(draw=None, probes=0, hooks=False):
         dict(k='text', s='(tr'),
         dict(k='return', ref=dict(r='name', n='vn')),
         dict(k='text', s='never)')])
+    # returns from inside a loop over pushed items
+    ns['tl'] = dict(t='tmpl', defaults=dict(td='⟦TL.td⟧', vb='⟦TL.vb⟧'), ast=[
+        dict(k='text', s='(tl'),
+        dict(k='in', ref=dict(r='name', n='s2'), opts=[], body=[
+            dict(k='var', ref=dict(r='name', n='xi'), opts=[]),
+            dict(k='return', ref=dict(r='name', n='vn'))],
+            **{'else': None}),
+        dict(k='text', s='never)')])
     ns['tx'] = dict(t='tmpl', defaults=dict(td='x'), ast=[
         dict(k='text', s='(tx'),
         dict(k='var', ref=dict(r='name', n='fr'), opts=[]),
